@@ -1,4 +1,5 @@
 import OxyModel.Proofs.RateLimit.Limiter
+import OxyModel.Proofs.RateLimit.PerRequest
 import OxyModel.Proofs.ConnLimit.NonInterference
 
 /-!
@@ -47,6 +48,28 @@ theorem C14_within_capacity_no_eviction (l : Limiter) (hnd : l.sets.keys.Nodup) 
     (hcap : (l.sets.keys ++ reqs.map (·.src)).dedup.length ≤ l.sets.capacity) : l.noEvict reqs :=
   noEvict_of_capacity (l.sets.keys ++ reqs.map (·.src)) reqs l hnd
     (fun x hx => List.mem_append_left _ hx) (fun r hr => List.mem_append_right _ (List.mem_map_of_mem hr)) hcap
+
+/-! ### per-request rate sets (`ExtractRates`)
+
+Every request carries the rate set its extractor yields (`[]` = the defaults); on a tracked source `serve`
+runs `TokenBucketSet.Update` with it.  Same two theorems, for every assignment of rate sets to requests. -/
+
+/-- general form with per-request rate sets -/
+theorem C14_evict_others_unchanged_rates (l : Limiter) (reqs : List ReqR) (s : String) (hsp : l.sparesR s reqs) :
+    l.decisionsForR s reqs = l.runR (reqs.filter (fun r => r.src = s)) := by
+  rw [decisions_eq_entryRunR s reqs l hsp, runR_own_eq_entryRunR]
+
+/-- within capacity, with per-request rate sets: whatever rate sets the requests of the other sources
+    (and of `s` itself) carry, the decisions for `s` are those of its own requests issued alone -/
+theorem C14_rate_noninterference_rates (l : Limiter) (hnd : l.sets.keys.Nodup) (reqs : List ReqR)
+    (hcap : (l.sets.keys ++ reqs.map (·.src)).dedup.length ≤ l.sets.capacity) (s : String) :
+    l.decisionsForR s reqs = l.runR (reqs.filter (fun r => r.src = s)) := by
+  apply C14_evict_others_unchanged_rates
+  apply sparesR_of_noEvictR
+  apply noEvictR_of_capacity (l.sets.keys ++ reqs.map (·.src)) reqs l hnd
+  · exact fun x hx => List.mem_append_left _ hx
+  · exact fun r hr => List.mem_append_right _ (List.mem_map_of_mem hr)
+  · exact hcap
 
 /-- **Over capacity: only the entry nearest to expiry is forgotten.**  When a request of an untracked
     source `src` finds the map full, then for *every* legal choice `victim` of the heap (an entry of
@@ -113,6 +136,10 @@ example : ((Limiter.new [⟨1000000000, 1, 2⟩] 2).sets.keys ++
 -- the interleaved decisions are not trivial: `a` is admitted, then refused
 example : (Limiter.new [⟨1000000000, 1, 2⟩] 2).decisionsFor "a" [⟨0, "a", 1, ""⟩, ⟨1, "b", 1, ""⟩, ⟨2, "a", 2, ""⟩]
     = [.ok, .tooMany 1000000000] := by decide
+-- per-request rate sets: `a` starts on 1/s burst 1, `b` uses 1/s burst 2, then `a` is switched to it and re-synced (200)
+example : (Limiter.new [⟨1000000000, 1, 1⟩] 2).decisionsForR "a"
+    [⟨0, "a", 1, [], ""⟩, ⟨0, "a", 1, [], ""⟩, ⟨0, "b", 1, [⟨2000000000, 1, 2⟩], ""⟩, ⟨0, "a", 1, [⟨2000000000, 1, 2⟩], ""⟩]
+    = [.ok, .tooMany 1000000000, .ok] := by decide
 end NonVacuity
 
 end C14
